@@ -361,6 +361,9 @@ func c06Fresh(cs *c06Case) *trie.SlimTrie {
 
 // ---------------------------------------------------------------- one case
 
+// the last stream written per encoder: loaded first into the "used" instance of the next case
+var c06PrevStream = map[string][]byte{}
+
 type c06Stats struct {
 	viewFreshEq, viewFreshNe, viewFreshBig int
 	viewSpecEq, viewSpecNe                 int
@@ -410,6 +413,35 @@ func c06Eval(c *Ctx, cs *c06Case, emit bool, stc *c06Stats) (*finding, []byte) {
 	if fd != nil {
 		return fd, buf
 	}
+	// the same stream loaded into an instance that is ALREADY IN USE (it holds the trie of the
+	// previous stream written with the same encoder): it must load and answer like a fresh load
+	if prev := c06PrevStream[spec.Name]; prev != nil {
+		var fu *finding
+		hung := c06Guard(func() {
+			defer func() {
+				if r := recover(); r != nil {
+					fu = &finding{key: "C06:used-instance-load-panic", what: fmt.Sprintf("C06: Unmarshal of a %s stream into an instance that already holds a trie panicked: %v", cs.L.Name, r), got: fmt.Sprint(r), want: "a loaded trie"}
+				}
+			}()
+			used, err := trie.NewSlimTrie(spec.Enc, nil, nil)
+			if err != nil || used.Unmarshal(prev) != nil {
+				return
+			}
+			if err := used.Unmarshal(buf); err != nil {
+				fu = &finding{key: "C06:used-instance-load-error", what: fmt.Sprintf("C06: Unmarshal of a %s stream into an instance that already holds a trie failed: %v", cs.L.Name, err), got: err.Error(), want: "a loaded trie"}
+				return
+			}
+			if f := c06Oracle(used, spec, cs.TC.Keys, bs, cs.complete(), cs.TC.Queries, starts, 1<<30); f != nil {
+				f.key = "C06:used-instance-" + strings.TrimPrefix(f.key, "C06:")
+				f.what = "C06: loaded into an instance already in use: " + f.what
+				fu = f
+			}
+		})
+		if hung == "" && fu != nil {
+			return fu, buf
+		}
+	}
+	c06PrevStream[spec.Name] = buf
 	if !emit {
 		return nil, buf
 	}
